@@ -41,10 +41,29 @@ def layout(toks, directive, style, rnd, filename="f.c", marker_p=0.12):
         if col != 1:
             emit("\n")
 
+    def marker():
+        nonlocal line, fname
+        fresh_line()
+        r = rnd.random()
+        nl = rnd.randrange(1, 900)
+        if r < 0.5:
+            nf = rnd.choice(["inc.h", "a/b.h", "other.c", filename, "sp ace.h"])
+            emit(f'# {nl} "{nf}"{rnd.choice(["", " 1", " 2", " 1 3", " 3 4"])}\n')
+            fname = nf
+        elif r < 0.75:
+            emit(f"#line {nl}\n")
+        else:
+            nf = rnd.choice(["l.h", "m.c"])
+            emit(f'#line {nl} "{nf}"\n')
+            fname = nf
+        line = nl
+
     prev = None
     for i, t in enumerate(toks):
         if i in directive:
             fresh_line()
+            if style == "marked" and rnd.random() < marker_p * 2:
+                marker()      # a linemarker directly in front of a #pragma line (and often one right after it)
             # '#pragma text' with random inner spacing
             body = t[len("#pragma"):].strip()
             emit("#")
@@ -66,20 +85,7 @@ def layout(toks, directive, style, rnd, filename="f.c", marker_p=0.12):
             fname = "same.c"
             line = 7
         elif style == "marked" and rnd.random() < marker_p:
-            fresh_line()
-            r = rnd.random()
-            nl = rnd.randrange(1, 900)
-            if r < 0.5:
-                nf = rnd.choice(["inc.h", "a/b.h", "other.c", filename, "sp ace.h"])
-                emit(f'# {nl} "{nf}"{rnd.choice(["", " 1", " 2", " 1 3", " 3 4"])}\n')
-                fname = nf
-            elif r < 0.75:
-                emit(f"#line {nl}\n")
-            else:
-                nf = rnd.choice(["l.h", "m.c"])
-                emit(f'#line {nl} "{nf}"\n')
-                fname = nf
-            line = nl
+            marker()
             if rnd.random() < 0.5:
                 emit(rnd.choice(["  ", "\t", " \n ", ""]))
         elif prev is None:
